@@ -19,9 +19,10 @@ pub struct SemOpts {
     pub atomicity: bool,
     /// judge administrator return values against the configuration model
     pub judge_admin: bool,
-    /// around every rate update evaluate these (lang, line, currencies involved) probes:
-    /// those not involving the updated currency must be bit-identical before and after
-    pub rate_probes: Vec<(String, String, Vec<String>)>,
+    /// around every rate update evaluate these (lang, structured line, currencies involved) probes:
+    /// those not involving the updated currency must be bit-identical before and after, the
+    /// others are judged against the rate model with the updated table
+    pub rate_probes: Vec<(String, Stmt, Vec<String>)>,
 }
 
 #[derive(Default, Clone)]
@@ -47,7 +48,8 @@ fn names_in(e: &crate::lang::Expr, out: &mut Vec<String>) {
 /// judge one line; returns true when it was judged
 #[allow(clippy::too_many_arguments)]
 pub fn judge_line(rep: &mut RunReport, ei: usize, prop: &str, stmt: &Stmt, text: &str, slot: &Slot, envm: &mut EnvModel, w: &World, env: &Env, t: i128) -> bool {
-    let ctx = Ctx { env: &envm.vals, rates: &w.cfg.rates, today: utc_days(t), zone: w.cfg.zone.clone(), data: &env.data };
+    let ctx = Ctx { env: &envm.vals, rates: &w.cfg.rates, today: utc_days(t), now: t.div_euclid(NS) as i64, zone: w.cfg.zone.clone(), data: &env.data };
+    crate::model::CURRENT_YEAR.with(|c| c.set(crate::clock::utc_date(t).0));
     let uses_poisoned = |e: &crate::lang::Expr| -> bool { let mut v = Vec::new(); names_in(e, &mut v); v.iter().any(|n| envm.poisoned.contains(n)) };
     let mut shape = stmt_shape(stmt);
     if let Stmt::Eval(e) | Stmt::Assign { e, .. } = stmt { if let Some(c) = crate::model::date_arith_class(e, &ctx) { shape = c; } }
@@ -156,13 +158,14 @@ pub fn run_semantic(prop: &str, trace: &Trace, env: &Env, opts: &SemOpts) -> Run
         last_t = t;
         match &ev.op {
             Op::Admin(op) => {
-                let before: Vec<CallObs> = if matches!(op, AdminOp::UpdateCurrency { .. }) { opts.rate_probes.iter().map(|(l, line, _)| w.execute(l, line, &ev.clock).0).collect() } else { vec![] };
+                let before: Vec<CallObs> = if matches!(op, AdminOp::UpdateCurrency { .. }) { opts.rate_probes.iter().map(|(l, st, _)| w.execute(l, &render_stmt(st, &w.cfg.fmt), &ev.clock).0).collect() } else { vec![] };
                 let o = w.admin(op, &ev.clock);
                 let expected = w.cfg.apply(&env.data, op);
                 if let AdminOp::UpdateCurrency { name, .. } = op {
                     let updated = env.data.read_currency(name);
-                    for (k, (l, line, involved)) in opts.rate_probes.iter().enumerate() {
-                        let after = w.execute(l, line, &ev.clock).0;
+                    for (k, (l, st, involved)) in opts.rate_probes.iter().enumerate() {
+                        let line = render_stmt(st, &w.cfg.fmt);
+                        let after = w.execute(l, &line, &ev.clock).0;
                         rep.evaluations += 2;
                         let touches = match &updated { Some(code) => involved.contains(code), None => false };
                         if !touches {
@@ -171,6 +174,12 @@ pub fn run_semantic(prop: &str, trace: &Trace, env: &Env, opts: &SemOpts) -> Run
                             if after != before[k] {
                                 rep.violate("O-exactly-that-currency", format!("{}:rate-update-changed-unrelated-conversion", prop), ei, format!("{:?} (updates {:?}) changed {:?} from {} to {}", op, updated, line, before[k].short(), after.short()));
                             }
+                        } else if let Some(slot) = after.lines().and_then(|l| l.first()).map(|l| l.slot.clone()) {
+                            // a conversion that involves the updated currency and was already served before the
+                            // update: it must follow the new table at once
+                            rep.count("probe.related_conversion_follows_update");
+                            let mut em = EnvModel::default();
+                            if judge_line(&mut rep, ei, prop, st, &line, &slot, &mut em, &w, env, ev.clock.base()) { rep.judged += 1; }
                         }
                     }
                 }
